@@ -116,15 +116,16 @@ Section Chase.
     fold_left (fun acc r => if existsb (ns_dup r) acc then acc else acc ++ [r]) theirs mine.
 
   (* additionalAnswer's scan of the answer section, in record order: the first record of the asked type
-     ends it (answer found), an alias pointing at the question itself is a SERVFAIL, otherwise the last
-     alias target is what gets asked next *)
+     ends it (answer found), an alias pointing at the question itself - compared without regard to letter
+     case since /repo a4faf69 (strings.EqualFold) - is a SERVFAIL, otherwise the last alias target is what
+     gets asked next *)
   Inductive scan_res := ScanFound | ScanServfail | ScanTarget (t : option name).
   Fixpoint scan (qname : name) (rs : list rrec) (t : option name) : scan_res :=
     match rs with
     | [] => ScanTarget t
     | r :: rs =>
         if r_type r =? qtype then ScanFound else
-        if r_type r =? TypeCNAME then (if name_eqb (r_target r) qname then ScanServfail else scan qname rs (Some (r_target r)))
+        if r_type r =? TypeCNAME then (if name_eqb (fold (r_target r)) (fold qname) then ScanServfail else scan qname rs (Some (r_target r)))
         else scan qname rs t
     end.
 
@@ -145,7 +146,7 @@ Section Chase.
             let child := merged && existsb (fun r => r_type r =? TypeCNAME) ans' in
             let t1 := if merged then last_cname ans' else Some t in   (* searchAdditionalAnswer's target: "" without an alias *)
             if rc' =? 3 then MReply 3 ans1 ns1 ad1 else
-            if match t1 with Some x => name_eqb x qname | None => false end then MServfail else
+            if match t1 with Some x => name_eqb (fold x) (fold qname) | None => false end then MServfail else
             if child && Nat.ltb 0 c && negb (has_qtype ans') then
               match t1 with Some x => chase_loop sub qname rcode c (targets ++ [t]) x ans1 ns1 ad1 | None => MReply rcode ans1 ns1 ad1 end
             else MReply rcode ans1 ns1 ad1
